@@ -84,6 +84,9 @@ def plan(tier, seed, scale=1.0):
     for n in values.boundary_lens():
         for fam, spec in values.len_specs(n):
             units.append({'kind': 'len', 'family': fam, 'spec': spec, 'n': n, 'tier': tier, 'seed': seed})
+    nseq = int((20000 if tier == 'quick' else 2000000) * scale)
+    for i in range(0, nseq, 2000 if tier == 'quick' else 20000):
+        units.append({'kind': 'sequences', 'seed': seed, 'first': i, 'count': min(2000 if tier == 'quick' else 20000, nseq - i)})
     nrand = int((3000 if tier == 'quick' else 400000) * scale)
     per = 100 if tier == 'quick' else 1000
     for i in range(0, nrand, per):
@@ -93,6 +96,7 @@ def plan(tier, seed, scale=1.0):
 
 def selftest_units(tier, seed):
     return [{'kind': 'random', 'seed': seed, 'first': 0, 'count': 40},
+            {'kind': 'sequences', 'seed': seed, 'first': 0, 'count': 300},
             {'kind': 'len', 'family': 'map', 'spec': {'M': 17}, 'n': 17, 'tier': 'quick', 'seed': seed},
             {'kind': 'ints', 'ints': ['-33', '255', '65536']}]
 
@@ -103,7 +107,8 @@ class Acc(object):
     def __init__(self):
         self.evals = 0
         self.keys = set()
-        self.faults = {'eof_in_code': 0, 'eof_in_len': 0, 'eof_in_exttype': 0, 'eof_in_body': 0, 'eof_in_elems': 0}
+        self.faults = {'eof_in_code': 0, 'eof_in_len': 0, 'eof_in_exttype': 0, 'eof_in_body': 0, 'eof_in_elems': 0,
+                       'refused_midway': 0, 'eof_in_sequence': 0, 'invalid_stream_in_sequence': 0}
         self.probes = {'cut_inside_length_header': 0, 'nonminimal_format_decoded': 0, 'nested_cut_depth_ge_2': 0,
                        'encoding_ge_65536_bytes': 0}
         self.violations = []
@@ -273,6 +278,8 @@ def check_cuts(acc, enc, points, case, use_loads_every=7):
                     'stream of %d bytes ended after %d bytes: unpack %s (expected InsufficientDataException)' % (
                         len(enc), k, outcome))
     acc.log.add('cuts', len(points))
+    if len(points) and case.get('spec') is not None and len(enc) <= 4096 and not case.get('formats'):
+        sentinel(acc, {'op': 'dec_cut', 'spec': case['spec'], 'cut': list(points)[len(points) // 2]})
 
 
 def _short(x):
@@ -359,9 +366,147 @@ def run_value(acc, spec, tier, rng, exhaustive_formats, nalt=2, full_cuts=False,
                 check_cuts(acc, alt, cut_points(len(alt), header_len(alt), tier, rng, False, limit, _is_container(alt)), c)
 
 
+SENTINEL = ['s', 1, {'k': [None, True]}]
+SENTINEL_ENC = refcodec.encode(SENTINEL)
+
+
+def run_sequence(acc, ops, case=None):
+    """A history of codec operations on one interpreter state; every operation has its own oracle, so an operation
+    that fails (a refused value, a truncated or invalid stream) must not change what later operations do."""
+    case = case or {'kind': 'sequence', 'ops': ops}
+    hist = []
+    for i, op in enumerate(ops):
+        acc.evals += 1
+        k = op['op']
+        hist.append(k)
+        tag = '%s-after-%s' % (k, hist[-2] if len(hist) > 1 else 'start')
+        try:
+            if k == 'enc':
+                v = values.build(op['spec'])
+                uv = values.to_u(v, U)
+                if op.get('api') == 'pack':
+                    st = SimStream()
+                    U.pack(uv, st)
+                    enc = bytes(st.out)
+                else:
+                    enc = U.dumps(uv)
+                try:
+                    ok = refcodec.same(refcodec.decode_all(enc), v)
+                except (refcodec.Truncated, refcodec.Invalid):
+                    ok = False
+                if ok:
+                    ok = refcodec.same(U.loads(enc), v)
+                outcome = 'ok' if ok else 'wrong-bytes'
+                acc.log.add('seq', i, k, len(enc), outcome)
+            elif k == 'refuse':
+                uv = values.to_u(values.build(op['spec']), U)
+                try:
+                    if op.get('api') == 'pack':
+                        U.pack(uv, SimStream())
+                    else:
+                        U.dumps(uv)
+                    outcome = 'encoded'
+                except U.UnsupportedTypeException:
+                    outcome = 'ok'
+                acc.faults['refused_midway'] = acc.faults.get('refused_midway', 0) + 1
+                acc.log.add('seq', i, k, outcome)
+            elif k == 'dec':
+                v = values.build(op['spec'])
+                enc = refcodec.encode(v, Chooser(script=op.get('formats') or []))
+                outcome = 'ok' if refcodec.same(U.unpack(SimStream(enc)), v) else 'wrong-value'
+                acc.log.add('seq', i, k, outcome)
+            elif k == 'dec_cut':
+                v = values.build(op['spec'])
+                enc = refcodec.encode(v)
+                cut = op['cut'] % max(1, len(enc))
+                try:
+                    U.unpack(SimStream(enc, eof_at=cut))
+                    outcome = 'returned'
+                except U.InsufficientDataException:
+                    outcome = 'ok'
+                acc.faults['eof_in_sequence'] = acc.faults.get('eof_in_sequence', 0) + 1
+                acc.log.add('seq', i, k, cut, outcome)
+            elif k == 'dec_bad':
+                try:
+                    U.loads(bytes.fromhex(op['hex']))
+                    outcome = 'returned'
+                except U.UnpackException:
+                    outcome = 'ok'
+                acc.faults['invalid_stream_in_sequence'] = acc.faults.get('invalid_stream_in_sequence', 0) + 1
+                acc.log.add('seq', i, k, outcome)
+            else:
+                raise ValueError(k)
+        except Exception as e:
+            if isinstance(e, ValueError) and str(e) == k:
+                raise
+            outcome = 'raised:' + type(e).__name__
+        if outcome != 'ok':
+            acc.vio('C14/history/%s/%s' % (tag, outcome), case,
+                    'operation %d (%s) of the sequence %r: %s' % (i, _short(op), hist, outcome))
+            return False
+    if any(h in ('refuse', 'dec_cut', 'dec_bad') for h in hist[:-1]):
+        acc.keys.add(prng.derive('seq', tuple(hist)) & 0xffffffffffff)
+    return True
+
+
+def sentinel(acc, fault_op):
+    """After an injected fault in the other units: the codec must still treat an unrelated value correctly."""
+    return run_sequence(acc, [fault_op, {'op': 'enc', 'spec': SENTINEL_SPEC, 'api': 'dumps'},
+                              {'op': 'enc', 'spec': SENTINEL_SPEC, 'api': 'pack'}, {'op': 'dec', 'spec': SENTINEL_SPEC}])
+
+
+SENTINEL_SPEC = [{'s': 's'}, 1, {'m': [[{'s': 'k'}, [None, True]]]}]
+
+
+def gen_sequence(rng):
+    ops = []
+    n = rng.choice((2, 3, 4, 6, 8))
+    for i in range(n):
+        x = rng.random()
+        small = values.rand_value(rng, 3, [rng.choice((3, 8, 20))])
+        if x < 0.30 or (i == 0 and x < 0.7):
+            bad = rng.choice(['int:%d' % (2 ** 64 + rng.randrange(3)), 'int:%d' % (-2 ** 63 - 1 - rng.randrange(3)),
+                              'int:%d' % (2 ** 70), 'obj', 'set'])
+            lead = [values.rand_scalar(rng) for _ in range(rng.choice((0, 1, 2, 5, 17)))]
+            shape = rng.randrange(4)
+            if shape == 0:
+                spec = lead + [{'X': bad}]
+            elif shape == 1:
+                spec = {'m': [[i2, e] for i2, e in enumerate(lead)] + [[999, {'X': bad}]]}
+            elif shape == 2:
+                spec = [small, [lead + [{'X': bad}]], 7]
+            else:
+                spec = {'X': bad}
+            ops.append({'op': 'refuse', 'spec': spec, 'api': rng.choice(('dumps', 'pack'))})
+        elif x < 0.42:
+            ops.append({'op': 'dec_cut', 'spec': small, 'cut': rng.randrange(0, 4096)})
+        elif x < 0.47:
+            ops.append({'op': 'dec_bad', 'hex': rng.choice(('c1', '92c1', '81a16bc1'))})
+        elif x < 0.75:
+            ops.append({'op': 'enc', 'spec': small, 'api': rng.choice(('dumps', 'dumps', 'pack'))})
+        else:
+            ch = Chooser(rng)
+            refcodec.encode(values.build(small), ch)
+            ops.append({'op': 'dec', 'spec': small, 'formats': ch.picked[:200]})
+    # every history ends by exercising both encode entry points and the decoder once more, so that whatever a
+    # fault left behind shows inside this history (and cannot leak into the next one run by the same worker)
+    tail = values.rand_value(rng, 2, [6])
+    ops.append({'op': 'enc', 'spec': tail, 'api': 'dumps'})
+    ops.append({'op': 'enc', 'spec': tail, 'api': 'pack'})
+    ops.append({'op': 'dec', 'spec': tail, 'formats': []})
+    return ops
+
+
 def run_unit(unit):
     acc = Acc()
     kind = unit['kind']
+    if kind == 'sequences':
+        for i in range(unit['first'], unit['first'] + unit['count']):
+            ops = gen_sequence(prng.rng('c14-seq', unit['seed'], i))
+            run_sequence(acc, ops)
+            if i == unit['first']:
+                acc.samples.append({'kind': 'sequence', 'run': i, 'ops': ops[:6]})
+        return acc.result()
     if kind == 'case':
         for v in replay_case(unit['case']):
             acc.vio(v['sig'], unit['case'], v['detail'])
@@ -409,6 +554,9 @@ def run_unit(unit):
                     if outcome != 'ok':
                         acc.vio('C14/out-of-range/%s/%s' % (name, outcome), case,
                                 '%s(%d) %s, expected UnsupportedTypeException' % (name, x, outcome))
+                    wspec = {'X': 'int:%d' % x}
+                    wspec = wspec if case['wrap'] == 'int' else ([1, wspec] if case['wrap'] == 'list' else {'m': [[{'s': 'j'}, 1], [{'s': 'k'}, wspec]]})
+                    sentinel(acc, {'op': 'refuse', 'spec': wspec, 'api': name})
         acc.samples.append({'kind': 'range', 'example': str(2 ** 64)})
     elif kind == 'ints':
         rng = prng.rng('c14-ints')
@@ -442,6 +590,9 @@ def run_unit(unit):
 def replay_case(case):
     acc = Acc()
     kind = case['kind']
+    if kind == 'sequence':
+        run_sequence(acc, case['ops'], case)
+        return acc.violations
     if kind == 'firstbyte':
         r = run_unit({'kind': 'firstbytes'})
         return [v for v in r['violations'] if v['case'].get('byte') == case['byte']]
@@ -508,6 +659,23 @@ def _violates(spec, clause):
 
 
 def shrink(case, sig):
+    if case.get('kind') == 'sequence':
+        from sim import ddmin
+
+        def bad(ops):
+            a = Acc()
+            try:
+                run_sequence(a, ops)
+            except Exception:
+                return False
+            return any(_clause(v['sig']) == _clause(sig) for v in a.violations)
+        if not bad(case['ops']):
+            return case
+        ops = ddmin.ddmin(case['ops'], bad, ddmin.Budget(200))
+        a = Acc()
+        run_sequence(a, ops)
+        v = a.violations[0]
+        return v['case'], v['sig'], v['detail']
     if case.get('kind') != 'value':
         return case
     clause = _clause(sig)
